@@ -147,8 +147,9 @@ def positions(rng, pid_sorted: np.ndarray, geom: str) -> np.ndarray:
             xyz[i] = xyz[0] + v * int(rng.integers(1, 5))
         return xyz
     xyz = np.zeros((n, 3))
-    if geom in ("growth", "tiny", "big", "coincident"):
-        scale = {"growth": 2.0, "tiny": 1e-3, "big": 1e3, "coincident": 2.0}[geom]
+    if geom in ("growth", "tiny", "micro", "big", "coincident"):
+        # "micro" (not in the default pool): a morphology expressed in metres instead of microns
+        scale = {"growth": 2.0, "tiny": 1e-3, "micro": 2e-6, "big": 1e3, "coincident": 2.0}[geom]
         xyz[0] = rng.normal(0, 5 * scale, 3)
         steps = rng.normal(0, scale, (n, 3))
         if geom == "coincident":
